@@ -86,6 +86,26 @@ static uint64_t work(int i, int round, bool shared) {
         h = fnv(h, std::to_string(acc));
     }
     close(k1); close(k2); close(kp);
+    // a rotation that FAILS (the application could not open the next output: descriptor -1) is reported by exception; whatever the exporter
+    // does from then on - further records, the final block, its destruction - must stay within what is its own: the other threads keep
+    // opening and closing descriptors of theirs all the while, and the process-wide descriptor table is state they all share
+    if (i % 2 == 0) {
+        int fdr = memfd_create("t", 0); int kr = dup(fdr);
+        {
+            CdnsExporter xr(local, fdr, CborOutputCompression::NO_COMPRESSION);
+            GenericQueryResponse g; g.client_ip = std::string("\x0a\x01\x01", 3) + static_cast<char>(i); g.query_size = 17 + i;
+            for (int q = 0; q < 20; q++) { g.client_port = static_cast<uint16_t>(2000 + q); h = fnv(h, std::to_string(xr.buffer_qr(g))); }
+            h = fnv(h, std::to_string(xr.write_block()));
+            try { xr.rotate_output(-1, true); h = fnv(h, "rotated"); } catch (std::exception&) { h = fnv(h, "rotation failed"); }
+            for (int q = 0; q < 40; q++) {
+                std::this_thread::yield();
+                g.client_port = static_cast<uint16_t>(3000 + q);
+                try { h = fnv(h, std::to_string(xr.buffer_qr(g))); } catch (std::exception&) { h = fnv(h, "record failed"); }
+            }
+            try { h = fnv(h, std::to_string(xr.write_block())); } catch (std::exception&) { h = fnv(h, "block failed"); }
+        }
+        h = fnv(h, read_fd_all(kr)); close(kr);
+    }
     return h + static_cast<uint64_t>(round) * 0;
 }
 
@@ -98,7 +118,12 @@ int main(int argc, char** argv) {
         std::vector<uint64_t> got(n);
         std::vector<std::thread> th;
         bool shared = r % 2 == 1;
-        for (int i = 0; i < n; i++) th.emplace_back([&got, i, r, shared] { got[i] = work(i, r, shared); });
+        // every thread does its work three times over, so that the threads are at different points of it (opening their outputs, in
+        // the middle of exporting, destroying exporters) at any one time
+        for (int i = 0; i < n; i++) th.emplace_back([&got, &ref, &refs, i, r, shared] {
+            uint64_t want = shared ? refs[i] : ref[i], res = want;
+            for (int rep = 0; rep < 3; rep++) { uint64_t w = work(i, r, shared); if (w != want) res = w; for (int y = 0; y < i; y++) std::this_thread::yield(); }
+            got[i] = res; });
         for (auto& t : th) t.join();
         for (int i = 0; i < n; i++) if (got[i] != (shared ? refs[i] : ref[i])) { printf("mismatch thread %d round %d%s\n", i, r, shared ? " (exporters constructed from one shared FilePreamble object)" : ""); return 1; }
     }
